@@ -9,4 +9,5 @@ INVARIANT LemmaMask
 INVARIANT LemmaParsing
 INVARIANT LemmaPolicy
 INVARIANT LemmaClean
+INVARIANT LemmaSocket
 CHECK_DEADLOCK FALSE
